@@ -28,7 +28,7 @@ from lib import common
 from checks import c05
 
 NPROC = 16
-WRAP = ("-no-pie -Wl,--wrap=malloc,--wrap=calloc,--wrap=realloc,--wrap=free,--wrap=strdup,"
+WRAP = ("-no-pie -rdynamic -Wl,--wrap=malloc,--wrap=calloc,--wrap=realloc,--wrap=free,--wrap=strdup,"
         "--wrap=strndup,--wrap=getcwd")
 
 PARTIAL_TEXT = (
@@ -68,6 +68,120 @@ RUNTIME_PROGRAMS = [
     ("no-main", "func f() -> int { 0 }"),
     ("main-with-args", "func main(a : int) -> int { a }"),
 ]
+
+
+# ---------------------------------------------------------------------------------------------
+# foreign calls: a small callee library built at run time + the "host" self-test functions of
+# back/fficall.c (the drivers are linked with -rdynamic so that extern "host" resolves)
+FFI_LIB_C = r"""
+#include <string.h>
+typedef struct { int x; int y; } Point;
+typedef struct { Point a; Point b; Point c; } Rect;
+typedef struct { int id; char * name; } Named;
+typedef struct { Named n; Point p; double w; } Big;
+int c16_add(int a, int b) { return a + b; }
+long long c16_addl(long long a, long long b) { return a + b; }
+double c16_muld(double a, double b) { return a * b; }
+float c16_mulf(float a, float b) { return a * b; }
+char c16_nextc(char c) { return (char)(c + 1); }
+int c16_strlen(const char * s) { return (int)strlen(s); }
+int c16_point(Point p) { return p.x + p.y; }
+Point c16_rect(Rect r) { Point p = { r.a.x + r.b.x + r.c.x, r.a.y + r.b.y + r.c.y }; return p; }
+Rect c16_mkrect(int k) { Rect r = { { k, k + 1 }, { k + 2, k + 3 }, { k + 4, k + 5 } }; return r; }
+int c16_named(Named n) { return n.id + (int)strlen(n.name); }
+int c16_big(Big b) { return b.n.id + (int)strlen(b.n.name) + b.p.x + (int)b.w; }
+int c16_two(Rect r, const char * s) { return r.a.x + (int)strlen(s); }
+int c16_two_rev(const char * s, Rect r) { return r.a.x + (int)strlen(s); }
+int c16_three(Rect r, Rect q, Named n) { return r.a.x + q.a.x + n.id; }
+"""
+
+FFI_DECLS = """
+record Point { x : int; y : int; }
+record Rect { a : Point; b : Point; c : Point; }
+record Named { id : int; name : string; }
+record Big { n : Named; p : Point; w : double; }
+extern "host" func test_rect(r : Rect) -> Point
+extern "host" func test_print_str(s : string) -> int
+extern "LIB" func c16_add(a : int, b : int) -> int
+extern "LIB" func c16_addl(a : long, b : long) -> long
+extern "LIB" func c16_muld(a : double, b : double) -> double
+extern "LIB" func c16_mulf(a : float, b : float) -> float
+extern "LIB" func c16_nextc(c : char) -> char
+extern "LIB" func c16_strlen(s : string) -> int
+extern "LIB" func c16_point(p : Point) -> int
+extern "LIB" func c16_rect(r : Rect) -> Point
+extern "LIB" func c16_mkrect(k : int) -> Rect
+extern "LIB" func c16_named(n : Named) -> int
+extern "LIB" func c16_big(b : Big) -> int
+extern "LIB" func c16_two(r : Rect, s : string) -> int
+extern "LIB" func c16_two_rev(s : string, r : Rect) -> int
+extern "LIB" func c16_three(r : Rect, q : Rect, n : Named) -> int
+extern "libnosuch_c16.so" func c16_nolib(a : int) -> int
+extern "LIB" func c16_no_such_symbol(a : int) -> int
+func some_rect() -> Rect { Rect(Point(10, 20), Point(30, 40), Point(40, 50)) }
+func nil_str() -> string { let strs = {[ 1 ]} : string; strs[0] }
+"""
+
+# (name, call expression of type int, kind)  kind: ok | fail
+FFI_CALLS = [
+    ("scalars", "c16_add(1, 2) + c16_strlen(\"abc\")", "ok"),
+    ("long-double-float-char", "{ let l = c16_addl(1L, 2L); let d = c16_muld(1.5d, 2.0d); let f = c16_mulf(1.5, 2.0); let c = c16_nextc('a'); 1 }", "ok"),
+    ("host-rect", "test_rect(some_rect()).x", "ok"),
+    ("host-print-str", "test_print_str(\"text\\n\")", "ok"),
+    ("record-by-value", "c16_point(Point(3, 4)) + c16_rect(some_rect()).y", "ok"),
+    ("struct-result", "c16_mkrect(7).c.y", "ok"),
+    ("record-with-string", "c16_named(Named(5, \"five\"))", "ok"),
+    ("nested-record", "c16_big(Big(Named(1, \"n\"), Point(2, 3), 4.0d))", "ok"),
+    ("two-args", "c16_two(some_rect(), \"xy\") + c16_two_rev(\"xy\", some_rect())", "ok"),
+    ("three-records", "c16_three(some_rect(), some_rect(), Named(1, \"a\"))", "ok"),
+    ("nil-string", "c16_strlen(nil_str())", "fail"),
+    ("host-nil-string", "test_print_str(nil_str())", "fail"),
+    ("nil-record", "{ var r = Rect; c16_rect(r).x }", "fail"),
+    ("host-nil-record", "{ var r = Rect; test_rect(r).x }", "fail"),
+    ("nil-small-record", "{ var p = Point; c16_point(p) }", "fail"),
+    ("nil-nested-record", "{ var p = Point; c16_rect(Rect(Point(1, 2), p, Point(3, 4))).x }", "fail"),
+    ("nil-string-in-record", "c16_named(Named(5, nil_str()))", "fail"),
+    ("nil-record-in-nested", "{ var n = Named; c16_big(Big(n, Point(2, 3), 4.0d)) }", "fail"),
+    ("nil-string-deep", "c16_big(Big(Named(1, nil_str()), Point(2, 3), 4.0d))", "fail"),
+    ("record-then-nil-string", "c16_two(some_rect(), nil_str())", "fail"),
+    ("string-then-nil-record", "{ var r = Rect; c16_two_rev(\"xy\", r) }", "fail"),
+    ("nil-record-then-string", "{ var r = Rect; c16_two(r, \"xy\") }", "fail"),
+    ("record-then-nil-record", "{ var r = Rect; c16_three(some_rect(), r, Named(1, \"a\")) }", "fail"),
+    ("records-then-nil-named", "{ var n = Named; c16_three(some_rect(), some_rect(), n) }", "fail"),
+    ("missing-library", "c16_nolib(1)", "fail"),
+    ("missing-symbol", "c16_no_such_symbol(1)", "fail"),
+]
+
+
+def build_ffi_lib(workdir):
+    src = os.path.join(workdir, "c16callee.c")
+    lib = os.path.join(workdir, "libc16callee.so")
+    with open(src, "w") as f:
+        f.write(FFI_LIB_C)
+    rc, so, se = common.sh("gcc -shared -fPIC -O1 -o %s %s" % (lib, src), timeout=120)
+    if rc != 0:
+        raise common.BuildError("callee library for the FFI family does not build: " + se[-1000:])
+    return lib
+
+
+def ffi_programs(lib):
+    """(name, source): every call shape x outcome (normal / ffi_fail caught / ffi_fail unhandled /
+    caught in a loop, so that a per-call loss is multiplied)."""
+    decls = FFI_DECLS.replace("LIB", lib)
+    out = []
+    for name, call, kind in FFI_CALLS:
+        body = "func call() -> int { %s }\n" % call
+        caught = "func call() -> int { %s } catch (ffi_fail) { -1 }\n" % call
+        if kind == "ok":
+            out.append((name + ".normal", decls + body + "func main() -> int { call(); call(); 0 }\n"))
+            out.append((name + ".loop", decls + body + "func main() -> int { var i = 0; while (i < 20) { call(); i = i + 1 }; 0 }\n"))
+        else:
+            out.append((name + ".caught", decls + caught + "func main() -> int { let a = call(); prints(a + \"\\n\"); 0 }\n"))
+            out.append((name + ".unhandled", decls + body + "func main() -> int { call() }\n"))
+            out.append((name + ".caught-loop", decls + caught + "func main() -> int { var i = 0; var s = 0; while (i < 10) { s = s + call(); i = i + 1 }; 0 }\n"))
+            out.append((name + ".caught-then-ok", decls + caught + "func main() -> int { call(); c16_add(1, 2); test_rect(some_rect()).x }\n"))
+            out.append((name + ".caught-by-catch-all", decls + "func call() -> int { %s } catch { -2 }\n" % call + "func main() -> int { call(); 0 }\n"))
+    return out
 
 
 # ---------------------------------------------------------------------------------------------
@@ -127,8 +241,8 @@ def parse_mem_output(text):
             cur = None
         elif l.startswith("A "):
             a = l.split(" ")
-            if len(a) == 4:
-                cur.sites.append((int(a[1]), a[2].split(","), int(a[3])))
+            if len(a) == 5:
+                cur.sites.append((int(a[1]), a[2].split(","), int(a[3]), int(a[4])))
     return res
 
 
@@ -246,16 +360,76 @@ def describe(frames):
     return ["%s (%s:%d)" % (f, short_loc(l)[0], short_loc(l)[1]) for f, l in frames]
 
 
+_SCANNER = {}
+
+
+def scanner_info():
+    """keywords of scanner.l (rules `word {` in the INITIAL state) and its lines, for naming token leaks"""
+    if not _SCANNER:
+        try:
+            lines = open(os.path.join(common.REPO, "front", "scanner.l")).read().split("\n")
+        except OSError:
+            lines = []
+        kw = set()
+        for l in lines:
+            m = re.match(r"^([a-z_]+)\s*\{\s*$", l)
+            if m:
+                kw.add(m.group(1))
+        _SCANNER.update({"lines": lines, "keywords": kw})
+    return _SCANNER
+
+
+def scanner_rule_at(line):
+    lines = scanner_info()["lines"]
+    for k in range(min(line, len(lines)) - 1, -1, -1):
+        if lines[k] and not lines[k][0].isspace() and lines[k].rstrip().endswith("{") and not lines[k].startswith("}"):
+            return lines[k].rstrip()[:-1].strip()
+    return "?"
+
+
+ROLE_AFTER = {"func": "func-name", "record": "record-name", "enum": "enum-name", "module": "module-name", "let": "bind-name",
+              "var": "bind-name", ":": "type-name", "->": "return-type-name", ".": "member-name", "::": "enum-item-name",
+              "(": "after-open-paren", ",": "after-comma", "{": "after-open-brace", ";": "after-semicolon", "[": "after-open-bracket",
+              "extern": "after-extern", "catch": "exception-name", "in": "after-in", "=": "after-assign"}
+
+
+def token_role(src, k):
+    """syntactic role of the k-th identifier token (k from 1) that the {ID} rule of the scanner duplicates"""
+    if re.search(rb"(^|\s)use\s", src):
+        return "position-unknown"           # module text is scanned in between: the count does not map to this text
+    kw = scanner_info()["keywords"]
+    toks = [x for x in c05.tokenize(src) if not x.isspace() and not x.startswith(b"#") and not x.startswith(b"/*")]
+    n = 0
+    for i, x in enumerate(toks):
+        if re.match(rb"^[A-Za-z_][A-Za-z0-9_]*$", x) and x.decode() not in kw:
+            n += 1
+            if n == k:
+                prev = toks[i - 1].decode("latin-1") if i > 0 else "^"
+                nxt = toks[i + 1].decode("latin-1") if i + 1 < len(toks) else "$"
+                if prev in ("(", ",") and nxt == ":":
+                    return "param-name"
+                if prev in ROLE_AFTER:
+                    return ROLE_AFTER[prev]
+                if prev == "^":
+                    return "first-token"
+                return "in-expression"
+    return "position-unknown"
+
+
 def attribute(case, o, kind, sym, parser_y):
-    """Stable key for a failing trace.  Leak: the block acquired LAST among the leaked ones is taken as
-    the root of the leaked structure (the parser builds bottom-up); it is named by the grammar
-    nonterminal whose action allocated it when a yyparse frame is on its stack, else by the
-    allocating function.  Reject: the function performing the bad free.  -> (key, [descriptions])"""
+    """Stable keys for a failing trace -> [(key, [descriptions])], the first one is the main key.
+    Leak: the block acquired LAST among the leaked ones is taken as the root of the leaked structure
+    (the parser builds bottom-up); it is named by the grammar nonterminal whose action allocated it
+    when a yyparse frame is on its stack, else by the allocating function.  Token texts duplicated by
+    the scanner all come from ONE call site, so they are named by the syntactic role of the token in
+    the input (k-th allocation at the site = k-th identifier of the text); every leaked token text that
+    cannot belong to a leaked parser node (acquired after the last leaked node) gets its own key, so a
+    new lost token is not hidden behind a known one.  Reject: the function performing the bad free."""
     oc = "parse-error" if outcome_class(o) == "parse-error" else ("no-outcome" if o.outcome is None else "after-parse")
     if not o.sites:
-        return "%s:%s:unattributed" % (kind, oc), []
+        return [("%s:%s:unattributed" % (kind, oc), [])]
     if kind != "leak":
-        blk, addrs, _ = o.sites[-1]              # where the rejected free/realloc happened
+        blk, addrs = o.sites[-1][0], o.sites[-1][1]       # where the rejected free/realloc happened
         frames = sym.resolve(addrs)
         desc = ["freed in " + " <- ".join(describe(frames)[:4])]
         if len(o.sites) > 1:
@@ -267,29 +441,45 @@ def attribute(case, o, kind, sym, parser_y):
             nt = nonterminal_at(parser_y, line)
             if nt:
                 name = "parser-action:" + nt
-        return "%s:%s:%s" % (m.group(1) if m else kind, oc, name), desc
-    blk, addrs, _ = max(o.sites, key=lambda s: s[2])
-    frames = sym.resolve(addrs)
-    fn = frames[0][0]
-    name = fn
-    for f, l in frames[1:]:
-        src, line = short_loc(l)
-        if f == "yyparse" and src.endswith("parser.y"):
-            nt = nonterminal_at(parser_y, line)
-            if nt:
-                name = "nonterminal:" + nt
-            break
-    if fn.startswith("string_") and any(f == "lex_scan" for f, _ in frames[1:3]):
-        name = "scanner-string-buffer"
-    elif fn == "lex_scan":
-        name = "scanner-token-text"
+        return [("%s:%s:%s" % (m.group(1) if m else kind, oc, name), desc)]
+
+    def name_of(site):
+        blk, addrs, seq, k = site
+        frames = sym.resolve(addrs)
+        fn = frames[0][0]
+        if fn == "lex_scan":
+            rule = scanner_rule_at(short_loc(frames[0][1])[1])
+            if rule == "{ID}":
+                return "token:" + token_role(case.data, k), frames, True
+            return "token:scanner-rule:" + (c05.slug(rule, 3) if c05.slug(rule, 3) != "none" else "other"), frames, True
+        if fn.startswith("string_") and any(f == "lex_scan" for f, _ in frames[1:3]):
+            return "scanner-string-buffer", frames, False
+        for f, l in frames[1:]:
+            src, line = short_loc(l)
+            if f == "yyparse" and src.endswith("parser.y"):
+                nt = nonterminal_at(parser_y, line)
+                if nt:
+                    return "nonterminal:" + nt, frames, False
+                break
+        return fn, frames, False
+
+    sites = sorted(o.sites, key=lambda s: s[2])
+    named = [(s,) + name_of(s) for s in sites[-60:]]
+    root = named[-1]
     fns = []
-    for b2, a2, _ in sorted(o.sites, key=lambda s: -s[2])[:40]:
-        f2 = sym.resolve(a2[:1])[0][0]
-        if f2 not in fns:
-            fns.append(f2)
-    desc = ["root block %d: " % blk + " <- ".join(describe(frames)[:5]), "allocating functions of leaked blocks: " + ", ".join(fns[:12])]
-    return "leak:%s:%s" % (oc, name), desc
+    for s, nm, frames, is_tok in reversed(named):
+        if frames[0][0] not in fns:
+            fns.append(frames[0][0])
+    out = [("leak:%s:%s" % (oc, root[1]),
+            ["root block %d: " % root[0][0] + " <- ".join(describe(root[2])[:5]),
+             "allocating functions of leaked blocks: " + ", ".join(fns[:12])])]
+    last_node_seq = max([s[2] for s, nm, fr, is_tok in named if not is_tok] + [0])
+    for s, nm, frames, is_tok in named:
+        if is_tok and s[2] > last_node_seq:
+            key = "leak:%s:%s" % (oc, nm)
+            if key not in [x[0] for x in out]:
+                out.append((key, ["token text block %d (the %d-th identifier scanned): " % (s[0], s[3]) + " <- ".join(describe(frames)[:3])]))
+    return out[:5]
 
 
 # ---------------------------------------------------------------------------------------------
@@ -352,6 +542,25 @@ def build_cases(ctx, rng, workdir, scale):
                 src = c05.write_use_graph(root, gph, main, True, broken)
                 cases.append(MCase("U%d.%s.%d" % (i, kind, n), "use" + ("" if broken is None else "+broken-module"), src, root))
                 i += 1
+    # grammar-driven syntax errors: every rule of parser.y x every position of its right-hand side x illegal token
+    try:
+        gcases, ginfo = c05.grammar_error_cases(common.REPO)
+    except Exception as e:
+        gcases, ginfo = [], {"error": str(e)[:300]}
+    ctx.coverage["grammar_driven_syntax_errors"] = ginfo
+    for nm, d in gcases:
+        cases.append(MCase("Y." + nm, "grammar-error", d))
+    for nm, d in c05.enum_init_cases(rng, int(150 * scale)):
+        cases.append(MCase("E." + nm, "enum-initialisers", d))
+    # foreign calls: every call shape x (normal | ffi_fail caught | unhandled | in a loop | missing library/symbol)
+    try:
+        lib = build_ffi_lib(workdir)
+        progs = ffi_programs(lib)
+    except common.BuildError as e:
+        progs = []
+        ctx.notes["ffi_family"] = "callee library not built: %s" % str(e)[:200]
+    for nm, src in progs:
+        cases.append(MCase("F." + nm, "ffi:" + nm.rsplit(".", 1)[1], src.encode()))
     for nm, src in RUNTIME_PROGRAMS:
         opts = ""
         if nm == "exit-out-of-memory-small":
@@ -363,7 +572,7 @@ def build_cases(ctx, rng, workdir, scale):
 
 def lsan_second_opinion(ctx, cases, workdir, timeout):
     """The same inputs through nevrun on the ASan build with LeakSanitizer on."""
-    drv = c05.build_driver("nevrun", ["common/nevrun.c"], "asan")
+    drv = c05.private_copy(c05.build_driver("nevrun_dyn", ["common/nevrun.c"], "asan", extra="-rdynamic"), workdir)
     groups = {}
     for c in cases:
         groups.setdefault(c.path or "", []).append(c)
@@ -441,9 +650,10 @@ def run(ctx):
         os.unlink(old)
     ctx.proofs()
     ctx.coverage["partial"] = PARTIAL_TEXT
-    drv = c05.build_driver("memdrive", ["mem/memdrive.c"], "plain", extra=WRAP)
+    drv = c05.build_driver("memdrive_dyn", ["mem/memdrive.c"], "plain", extra=WRAP)
     workdir = tempfile.mkdtemp(prefix="nvc16.", dir="/var/tmp")
     try:
+        drv = c05.private_copy(drv, workdir)
         mon = c05.get_ocaml(ctx, "mem", workdir)
         if mon is None:
             return
@@ -505,13 +715,13 @@ def _run(ctx, drv, mon, workdir, t0):
     if failing:
         groups = {}
         for c, o, k in failing:
-            cheap = sym.resolve(o.sites[-1][1][:1])[0][0] if o.sites else "?"
+            cheap = tuple(x[0] for x in attribute(c, o, k, sym, parser_y))      # keys as far as one return address tells
             groups.setdefault((k, outcome_class(o), cheap), []).append((c, o, k))
         sub = []
         for gk, lst in groups.items():
             lst.sort(key=lambda t: len(t[0].data))
-            sub += lst[:25]
-            unattributed += max(0, len(lst) - 25)
+            sub += lst[:12]
+            unattributed += max(0, len(lst) - 12)
         obs2 = run_mem(drv, mon, [c for c, _, _ in sub], workdir, timeout=timeout * 3, bt=True, tag="bt")
         done_groups = set()
         for c, o, k in sub:
@@ -519,14 +729,37 @@ def _run(ctx, drv, mon, workdir, t0):
             if o2 is None or judge(c, o2)[0] != k:
                 unattributed += 1
                 continue
-            key, desc = attribute(c, o2, k, sym, parser_y)
-            findings.setdefault(key, []).append((c, o2, k, desc))
-            done_groups.add((k, outcome_class(o), sym.resolve(o.sites[-1][1][:1])[0][0] if o.sites else "?"))
+            for key, desc in attribute(c, o2, k, sym, parser_y):
+                findings.setdefault(key, []).append((c, o2, k, desc))
+            done_groups.add((k, outcome_class(o), tuple(x[0] for x in attribute(c, o, k, sym, parser_y))))
         for gk, lst in groups.items():
             if gk not in done_groups:     # did not reproduce under --bt: keep the first-pass observation, cheap key
                 c, o, k = lst[0]
-                key, desc = attribute(c, o, k, sym, parser_y)
-                findings.setdefault(key, []).append((c, o, k, desc))
+                for key, desc in attribute(c, o, k, sym, parser_y):
+                    findings.setdefault(key, []).append((c, o, k, desc))
+    # a leaked token text whose place in the input could not be told (module text was scanned in between):
+    # shrink such an input while it still loses a token text - the `use` lines go away - and key the result
+    for key in [k for k in list(findings) if k.endswith(":token:position-unknown")]:
+        lst = findings.pop(key)
+        lst.sort(key=lambda t: len(t[0].data))
+        resolved = False
+        for c, o, k, desc in lst[:3]:
+            def still(cands, c=c):
+                cs = [MCase("u%d" % j, c.cls, d, c.path, c.opts) for j, d in enumerate(cands)]
+                ob = run_mem(drv, mon, cs, workdir, timeout=timeout * 2, bt=True, tag="pu")
+                return [judge(cc, ob.get(cc.id))[0] == "leak" and
+                        any(":token:" in x[0] for x in attribute(cc, ob.get(cc.id), "leak", sym, parser_y)) for cc in cs]
+            data, _ = c05.ddmin(c.data, still, budget_rounds=12)
+            c2 = MCase(c.id + ".shrunk", c.cls, data, c.path, c.opts)
+            o2 = run_mem(drv, mon, [c2], workdir, timeout=timeout * 2, bt=True, tag="pv").get(c2.id)
+            if o2 is not None and judge(c2, o2)[0] == "leak":
+                for key2, desc2 in attribute(c2, o2, "leak", sym, parser_y):
+                    findings.setdefault(key2, []).append((c2, o2, "leak", desc2))
+                    resolved = resolved or not key2.endswith("position-unknown")
+            if resolved:
+                break
+        if not resolved:
+            findings[key] = lst
     known = set(k.get("key") for k in ctx.known if k.get("status", "known") == "known")
     shrink_budget = 30 if thorough else 10
     for key in sorted(findings):
@@ -547,7 +780,7 @@ def _run(ctx, drv, mon, workdir, t0):
                 for cc in cs:
                     oo = ob.get(cc.id)
                     kk, _ = judge(cc, oo)
-                    out.append(kk == k and attribute(cc, oo, kk, sym, parser_y)[0] == key)
+                    out.append(kk == k and key in [x[0] for x in attribute(cc, oo, kk, sym, parser_y)])
                 return out
             data, tested = c05.ddmin(c.data, test, budget_rounds=14 if thorough else 9)
         what = {"leak": "blocks allocated by libnev code are still allocated after program_delete/vm_delete returned",
@@ -563,7 +796,7 @@ def _run(ctx, drv, mon, workdir, t0):
     t_ls0 = time.time()
     lcases = [c for c in cases if not c.cls.startswith("nest-parser")]
     if not thorough:
-        lcases = [c for i, c in enumerate(lcases) if c.cls.startswith(("runtime", "kept", "use", "corpus")) or i % 4 == 0]
+        lcases = [c for i, c in enumerate(lcases) if c.cls.startswith(("runtime", "kept", "use", "corpus", "ffi")) or i % 4 == 0]
     ls = lsan_second_opinion(ctx, lcases, workdir, timeout)
     ls_counts = {"run": len(ls), "clean": 0, "leak": 0, "asan-error": 0, "other-abnormal": 0}
     lfind = {}
